@@ -1191,7 +1191,14 @@ where
                     kawa.detached.status_line,
                     StatusLine::Response { code, .. } if (100..200).contains(&code) || code == 204 || code == 304
                 );
-            if n > 0 && !body_exempt {
+            // A response to HEAD carries the Content-Length of the GET body
+            // and no body (RFC 9110 §9.3.2). This parser does not know the
+            // request method; `on_headers` (the HttpContext) does and has just
+            // declared such a response Terminated. Same exemption as
+            // `ConnectionH2::content_length_exempt` gives DATA and trailers.
+            let head_response = matches!(kawa.kind, Kind::Response)
+                && kawa.parsing_phase == ParsingPhase::Terminated;
+            if n > 0 && !body_exempt && !head_response {
                 error!(
                     "{} END_STREAM with non-zero Content-Length: {} (RFC 9113 §8.1.1)",
                     log_module_context!(),
